@@ -4,6 +4,8 @@ Run ONE edit in a fresh interpreter with ONE injected fault (used by C17).
 stdin: JSON {"metafile": path, "req": {...}, "mode": "none"|"kill"|"raise"|"kill-write"|
              "raise-write", "k": index of the mutating operation, "prefix": bytes written
              before the fault, "error": "perm"|"nospace"}
+"readonly_dir": true adds a standing condition (no entry of the metafile's directory can be
+created, removed or renamed; existing files stay writable) on top of the one injected fault.
 Mutating operations are counted as the audit hook sees them (open for writing, rename,
 remove, ...).  `kill` = the process dies (os._exit) just before operation k; `raise` = the
 operation raises; `*-write` = the fault strikes inside the write of the encoded metafile after
@@ -31,6 +33,11 @@ def main():
     def on_event(tracer, rec):
         if rec[0] in ("chmod", "utime"):
             return
+        if spec.get("readonly_dir") and rec[0] in ("create", "remove", "rmdir", "mkdir", "rename", "link",
+                                                    "symlink", "move"):
+            # a standing condition, not the injected fault: the user may not add, remove or
+            # rename entries of the metafile's directory (existing files stay writable)
+            raise PermissionError(errno.EACCES, "read-only directory (standing condition)")
         if mode in ("kill", "raise") and count[0] == k:
             count[0] += 1
             if mode == "kill":
